@@ -112,6 +112,7 @@ type FnVerifier struct {
 	phiEntry  map[*ssa.Phi]Val // entry-merged value of loop-head phis (for reference)
 
 	defers []*ssa.Defer
+	promo  map[string]*Val // single-store local cells (ref term -> stored value; nil until the store is executed)
 	names  map[string]Val // parameter names
 	params []Val
 
